@@ -68,7 +68,13 @@ func (p *Predicate) String() string {
 	if p.anchor == nil {
 		return fmt.Sprintf("%q@[]", p.id)
 	}
-	return fmt.Sprintf("%q@[%s]", p.id, p.anchor.Format(time.RFC3339Nano))
+	ta := *p.anchor
+	if _, offset := ta.Zone(); offset%60 != 0 {
+		// RFC3339 cannot express zone offsets with seconds (for instance local mean
+		// times); the truncated offset would change the instant when parsed back.
+		ta = ta.UTC()
+	}
+	return fmt.Sprintf("%q@[%s]", p.id, ta.Format(time.RFC3339Nano))
 }
 
 // Parse converts a pretty printed predicate into a predicate.
